@@ -110,24 +110,42 @@ fn ctx_history<S: UnwindContextStorage<usize>>(sec: &[u8], hist: &[usize], mk: i
 /// a small unit: abbrevs with differing attribute counts, a few levels of nesting
 fn sample_unit(rng: &mut Rng) -> (Vec<u8>, Vec<u8>) {
     // abbrev codes: 1 = CU (children, 2 attrs), 2 = subprogram (children, 3 attrs), 3 = variable (no children, 1 attr),
-    // 4 = base type (no children, 0 attrs), 5 = block-carrying entry (no children, 4 attrs)
+    // 4 = base type (no children, 0 attrs), 5 = block-carrying entry (no children, 4 attrs),
+    // 6 = structure (children, DW_AT_sibling ref4 + name; its child list may be empty)
     let abbrev: Vec<u8> = vec![
         1, 0x11, 1, 0x03, 0x08, 0x13, 0x0b, 0, 0, //
         2, 0x2e, 1, 0x03, 0x08, 0x3a, 0x0b, 0x3b, 0x05, 0, 0, //
         3, 0x34, 0, 0x03, 0x08, 0, 0, //
         4, 0x24, 0, 0, 0, //
         5, 0x0b, 0, 0x02, 0x0a, 0x3a, 0x0b, 0x1c, 0x0f, 0x03, 0x08, 0, 0, //
+        6, 0x13, 1, 0x01, 0x13, 0x03, 0x08, 0, 0, //
         0,
     ];
+    // a structure with a valid DW_AT_sibling (unit header is 11 bytes) and 0-2 children
+    fn structure(dies: &mut Vec<u8>, rng: &mut Rng) {
+        let k = if rng.chance(1, 2) { 0 } else { 1 + rng.below(2) as usize };
+        let sib = (11 + dies.len() + 7 + 3 * k + 1) as u32;
+        dies.push(6);
+        dies.extend_from_slice(&sib.to_le_bytes());
+        dies.extend_from_slice(&[b'S', 0]);
+        for _ in 0..k {
+            dies.extend_from_slice(&[3, b'm', 0]);
+        }
+        dies.push(0);
+    }
     let mut dies = Vec::new();
     dies.extend_from_slice(&[1, b'u', 0, 0x0c]);
     let n = 2 + rng.below(4);
     for i in 0..n {
-        match rng.below(4) {
+        match rng.below(5) {
+            4 => structure(&mut dies, rng),
             0 => {
                 dies.extend_from_slice(&[2, b'f', b'0' + i as u8, 0, 1, 0x10, 0x00]);
                 for _ in 0..rng.below(3) {
                     dies.extend_from_slice(&[3, b'v', 0]);
+                }
+                if rng.chance(1, 3) {
+                    structure(&mut dies, rng);
                 }
                 if rng.chance(1, 2) {
                     dies.extend_from_slice(&[5, 2, 0x91, 0x70, 7]);
@@ -178,12 +196,12 @@ fn entry_history(abbrev: &[u8], unit: &[u8], truncs: &[usize]) -> Option<String>
             let rb = raw_b.read_entry(&mut fresh);
             let ta = match &ra {
                 Ok(true) => entry_text(&reused),
-                Ok(false) => format!("null@{} d{}", reused.offset().0, reused.depth()),
+                Ok(false) => format!("null {}", entry_text(&reused)),
                 Err(e) => format!("E{}", rerr(e)),
             };
             let tb = match &rb {
                 Ok(true) => entry_text(&fresh),
-                Ok(false) => format!("null@{} d{}", fresh.offset().0, fresh.depth()),
+                Ok(false) => format!("null {}", entry_text(&fresh)),
                 Err(e) => format!("E{}", rerr(e)),
             };
             if ta != tb {
@@ -222,6 +240,27 @@ fn tree_history(abbrev: &[u8], unit: &[u8], budgets: &[i64]) -> Option<String> {
         let r = t.root().and_then(|n| tree_walk(n, &mut b, &mut out));
         (out, r.is_ok())
     };
+    // the tree shares one entry buffer between all its nodes: a complete traversal must visit exactly the entries
+    // (offset, depth, tag, attributes) that a cursor visits in depth-first order
+    if full.1 {
+        let mut cursor = header.entries(&abbrevs);
+        let mut dfs = Vec::new();
+        let mut ok = true;
+        loop {
+            match cursor.next_dfs() {
+                Ok(Some(e)) => dfs.push(entry_text(e)),
+                Ok(None) => break,
+                Err(_) => {
+                    ok = false;
+                    break;
+                }
+            }
+        }
+        if ok && dfs != full.0 {
+            let k = dfs.iter().zip(full.0.iter()).take_while(|(a, b)| a == b).count();
+            return Some(format!("tree-differs-from-cursor tree={} cursor={} first_difference={k}", full.0.len(), dfs.len()));
+        }
+    }
     let mut tree = header.entries_tree(&abbrevs, None).ok()?;
     for (i, &bud) in budgets.iter().enumerate() {
         // partial traversal, abandoned
